@@ -116,6 +116,8 @@ func checkC10(c *core.Ctx) {
 	checkUnreadByte(c, p)
 	// ---- R6
 	checkErrorRecording(c, p)
+	// ---- R7
+	checkBlockCommentLength(c, p)
 	// ---- R4
 	checkDecodeIntegerFence(c, p)
 	// ---- R5
@@ -696,4 +698,81 @@ func checkErrorRecording(c *core.Ctx, p *load.Prog) {
 	}
 	c.Count("tokenizer_read_functions", n)
 	c.Floor("tokenizer_read_functions", 5)
+}
+
+// checkBlockCommentLength: R7. readBlockComment slices a block comment token
+// as concrete[2:len-2], which needs at least four bytes. blockCommentToken
+// guarantees that only if the '*' of the terminator is a byte read after the
+// two-byte opener: the terminator test must compare a variable that is only
+// ever assigned from the byte just read, never look back into the token text
+// (where the opener's own '*' sits).
+func checkBlockCommentLength(c *core.Ctx, p *load.Prog) {
+	pkg := p.Bebop()
+	info := pkg.TypesInfo
+	fd := p.FuncDecl(pkg, "blockCommentToken")
+	rb := p.FuncDecl(pkg, "readBlockComment")
+	if fd == nil || rb == nil {
+		c.Undecide("blockCommentToken / readBlockComment not found")
+		return
+	}
+	need := 0
+	ast.Inspect(rb.Body, func(n ast.Node) bool {
+		if se, ok := n.(*ast.SliceExpr); ok && se.Low != nil && se.High != nil {
+			lo, _ := constInt(info, se.Low)
+			if be, ok := ast.Unparen(se.High).(*ast.BinaryExpr); ok && be.Op == token.SUB {
+				hi, _ := constInt(info, be.Y)
+				need = lo + hi
+			}
+		}
+		return true
+	})
+	// the byte variable read in the loop
+	var readVar types.Object
+	ast.Inspect(fd.Body, func(n ast.Node) bool {
+		if as, ok := n.(*ast.AssignStmt); ok && len(as.Rhs) == 1 && isMethodCall(as.Rhs[0], "tr", "readByte") && len(as.Lhs) == 2 {
+			if id, ok := as.Lhs[0].(*ast.Ident); ok {
+				readVar = info.ObjectOf(id)
+			}
+		}
+		return true
+	})
+	ok := false
+	why := "no comparison with '*' found"
+	ast.Inspect(fd.Body, func(n ast.Node) bool {
+		be, is := n.(*ast.BinaryExpr)
+		if !is || be.Op != token.EQL {
+			return true
+		}
+		if v, isC := constInt(info, be.Y); !isC || v != '*' {
+			return true
+		}
+		id, isId := ast.Unparen(be.X).(*ast.Ident)
+		if !isId {
+			ok = false
+			why = "the terminator test reads " + wire.Canon(be.X) + ", which can be the '*' of the opening /*"
+			return false
+		}
+		obj := info.ObjectOf(id)
+		all := true
+		ast.Inspect(fd.Body, func(m ast.Node) bool {
+			if as, isA := m.(*ast.AssignStmt); isA && as.Tok == token.ASSIGN {
+				for i, l := range as.Lhs {
+					if lid, isL := l.(*ast.Ident); isL && info.ObjectOf(lid) == obj && i < len(as.Rhs) {
+						rid, isR := ast.Unparen(as.Rhs[i]).(*ast.Ident)
+						if !isR || info.ObjectOf(rid) != readVar {
+							all = false
+						}
+					}
+				}
+			}
+			return true
+		})
+		ok = all && readVar != nil
+		if !all {
+			why = id.Name + " is assigned from something other than the byte just read"
+		}
+		return false
+	})
+	c.Check("R7", fmt.Sprintf("a block comment token is at least %d bytes long", need), p.Pos(fd.Pos()), ok && need > 0,
+		why+": `/*/` would be accepted as a comment of 3 bytes and readBlockComment's slice panics")
 }
